@@ -62,7 +62,9 @@ class ExprMixin:
             if isinstance(h, HDict):
                 if h.present is None:
                     return z3.BoolVal(len(h.items) > 0)
-                return self.ref_truth(st, z3.IntVal(v.addr))
+                if h.items:
+                    return z3.BoolVal(True)
+                return z3.Function("dict_len", z3.ArraySort(U, B), I)(h.present) > 0
             if isinstance(h, HDeque):
                 return z3.BoolVal(len(h.items) > 0)
             if isinstance(h, HODict):
@@ -244,27 +246,71 @@ class ExprMixin:
         return out
 
     def e_Dict(self, node, st):
-        if any(k is None for k in node.keys):
-            raise Unsupported("dict unpacking")
+        """dict displays, including ** unpacking (later entries win)"""
+        nodes = []
+        for k, v in zip(node.keys, node.values):
+            if k is not None:
+                nodes.append(k)
+            nodes.append(v)
         out = []
-        for s, v in self.ev_list(list(node.keys) + list(node.values), st):
-            if isinstance(v, Raised):
-                out.append((s, v))
+        for s, vals in self.ev_list(nodes, st):
+            if isinstance(vals, Raised):
+                out.append((s, vals))
                 continue
-            n = len(node.keys)
-            d = HDict()
-            ref = s.alloc(d)
+            ref = s.alloc(HDict())
             results = [(s, None)]
-            for k, val in zip(v[:n], v[n:]):
+            it = iter(vals)
+            for k in node.keys:
                 nxt = []
-                for s2, o in results:
-                    if o is not None:
-                        nxt.append((s2, o))
-                    else:
-                        nxt.extend(self.set_item(s2, ref, k, val))
+                if k is None:
+                    src = next(it)
+                    for s2, o in results:
+                        nxt.extend(self.dict_merge(s2, ref, src) if o is None else [(s2, o)])
+                else:
+                    kv, vv = next(it), next(it)
+                    for s2, o in results:
+                        nxt.extend(self.set_item(s2, ref, kv, vv) if o is None else [(s2, o)])
                 results = nxt
             out.extend((s2, o if o is not None else ref) for s2, o in results)
         return out
+
+    def dict_merge(self, st, ref, src):
+        """ref.update(src) for dict values"""
+        if not (isinstance(src, VRef) and isinstance(st.deref(src), HDict)):
+            if isinstance(src, (VU, VOpaque)):
+                raise Unsupported("** unpacking of an unknown mapping")
+            return [self.raised(st, "TypeError", "argument after ** must be a mapping")]
+        hs = st.deref(src)
+        if hs.present is None:
+            results = [(st, None)]
+            for k, v in hs.items.items():
+                nxt = []
+                for s, o in results:
+                    nxt.extend(self.set_item(s, ref, const(k), v) if o is None else [(s, o)])
+                results = nxt
+            return results
+        h = st.deref(ref)
+        kk = fresh("mk", U)
+        if h.present is None:
+            pres = z3.K(U, z3.BoolVal(False))
+            vals = z3.K(U, U.none)
+            for ck, cv in h.items.items():
+                pres = z3.Store(pres, box(const(ck)), True)
+                vals = z3.Store(vals, box(const(ck)), box(cv))
+            h.items = {}
+        else:
+            pres, vals = h.present, h.val
+            for ck, cv in h.items.items():
+                pres = z3.Store(pres, box(const(ck)), True)
+                vals = z3.Store(vals, box(const(ck)), box(cv))
+            h.items = {}
+        sp, sv = hs.present, hs.val
+        for ck, cv in hs.items.items():
+            sp = z3.Store(sp, box(const(ck)), True)
+            sv = z3.Store(sv, box(const(ck)), box(cv))
+        h.present = z3.Lambda([kk], z3.Or(z3.Select(pres, kk), z3.Select(sp, kk)))
+        h.val = z3.Lambda([kk], z3.If(z3.Select(sp, kk), z3.Select(sv, kk), z3.Select(vals, kk)))
+        return [(st, None)]
 
     def e_Set(self, node, st):
         out = []
